@@ -282,3 +282,250 @@ Proof.
     rewrite Hk, IH. reflexivity.
   - rewrite (strip_list_cons_invis _ _ _ _ E). exact IH.
 Qed.
+
+(* ------------------------------------------------------------------------------------------------ *)
+(* 7. axes *)
+
+Lemma picks_strip : forall st pn l pre post,
+  map (strip_ctx st) (filter (ctx_visible st) (picks pn pre l post)) =
+  picks pn (strip_list st pn pre) (strip_list st pn l) (strip_list st pn post).
+Proof.
+  intros st pn l. induction l as [|k r IH]; intros pre post; [reflexivity|].
+  cbn [picks filter]. unfold ctx_visible at 1. cbn [c_pn c_self].
+  destruct (visible st pn k) eqn:E.
+  - rewrite (strip_list_cons_vis _ _ _ _ E). cbn [map picks]. f_equal.
+    + unfold strip_ctx. cbn [c_pn c_before c_self c_after]. rewrite strip_list_app. reflexivity.
+    + rewrite IH, strip_list_app, (strip_list_cons_vis _ _ k [] E). reflexivity.
+  - rewrite (strip_list_cons_invis _ _ _ _ E).
+    rewrite IH, strip_list_app, (strip_list_cons_invis _ _ k [] E).
+    change (strip_list st pn []) with (@nil node). rewrite app_nil_r. reflexivity.
+Qed.
+
+Lemma keep_visible_all : forall st l, Forall (fun c => ctx_visible st c = true) (keep_visible st l).
+Proof.
+  intros st l. apply Forall_forall. intros c Hc. apply filter_In in Hc. apply Hc.
+Qed.
+
+(* the inner loop of desc_ctxs_of as a function of its own *)
+Fixpoint desc_go (st : pred) (n : qname) (pre l : list node) : list ctx :=
+  match l with
+  | [] => []
+  | k :: r =>
+      (if visible st n k
+       then {| c_pn := n; c_before := pre; c_self := k; c_after := r |} :: desc_ctxs_of st k
+       else [])
+      ++ desc_go st n (pre ++ [k]) r
+  end.
+
+Lemma desc_go_fix : forall st n ks pre,
+  (fix go (pre l : list node) : list ctx :=
+     match l with
+     | [] => []
+     | k :: r =>
+         (if visible st n k
+          then {| c_pn := n; c_before := pre; c_self := k; c_after := r |} :: desc_ctxs_of st k
+          else [])
+         ++ go (pre ++ [k]) r
+     end) pre ks = desc_go st n pre ks.
+Proof.
+  intros st n ks. induction ks as [|k r IH]; intros pre; [reflexivity|].
+  cbn [desc_go]. rewrite <- IH. reflexivity.
+Qed.
+
+Lemma desc_ctxs_of_elem : forall st n a ks, desc_ctxs_of st (Elem n a ks) = desc_go st n [] ks.
+Proof. intros st n a ks. exact (desc_go_fix st n ks []). Qed.
+
+Lemma desc_go_strip : forall st n ks,
+  Forall (fun k => map (strip_ctx st) (desc_ctxs_of st k) =
+                   desc_ctxs_of no_strip (remove_stripped st k)) ks ->
+  forall pre,
+  map (strip_ctx st) (desc_go st n pre ks) =
+  desc_go no_strip n (strip_list st n pre) (strip_list st n ks).
+Proof.
+  intros st n ks HF. induction HF as [|k r Hk _ IH]; intros pre; [reflexivity|].
+  cbn [desc_go]. rewrite map_app, IH, strip_list_app.
+  destruct (visible st n k) eqn:E.
+  - rewrite (strip_list_cons_vis _ _ k r E), (strip_list_cons_vis _ _ k [] E).
+    cbn [desc_go]. rewrite visible_no_strip. cbn [map]. rewrite Hk. reflexivity.
+  - rewrite (strip_list_cons_invis _ _ k r E), (strip_list_cons_invis _ _ k [] E).
+    change (strip_list st n []) with (@nil node). rewrite app_nil_r. reflexivity.
+Qed.
+
+Lemma desc_ctxs_strip : forall st x,
+  map (strip_ctx st) (desc_ctxs_of st x) = desc_ctxs_of no_strip (remove_stripped st x).
+Proof.
+  intros st. induction x using node_ind'; try reflexivity.
+  rewrite rs_elem, !desc_ctxs_of_elem. apply (desc_go_strip st n ks H []).
+Qed.
+
+Lemma desc_go_visible : forall st n ks,
+  Forall (fun k => Forall (fun c => ctx_visible st c = true) (desc_ctxs_of st k)) ks ->
+  forall pre, Forall (fun c => ctx_visible st c = true) (desc_go st n pre ks).
+Proof.
+  intros st n ks HF. induction HF as [|k r Hk _ IH]; intros pre; [constructor|].
+  cbn [desc_go]. apply Forall_app. split; [|apply IH].
+  destruct (visible st n k) eqn:E; [|constructor].
+  constructor; [exact E|exact Hk].
+Qed.
+
+Lemma desc_ctxs_visible : forall st x,
+  Forall (fun c => ctx_visible st c = true) (desc_ctxs_of st x).
+Proof.
+  intros st. induction x using node_ind'; try constructor.
+  rewrite desc_ctxs_of_elem. apply desc_go_visible. exact H.
+Qed.
+
+Lemma axis_equiv : forall st a c, ctx_visible st c = true ->
+  map (strip_ctx st) (axis_ctxs st a c) = axis_ctxs no_strip a (strip_ctx st c).
+Proof.
+  intros st a c Hv. destruct c as [pn pre x post]. unfold ctx_visible in Hv. cbn [c_pn c_self] in Hv.
+  destruct a; cbn [axis_ctxs].
+  - reflexivity.
+  - unfold child_ctxs. cbn [strip_ctx c_self c_pn c_before c_after].
+    destruct x; try reflexivity.
+    rewrite rs_elem, keep_visible_no_strip. unfold keep_visible. rewrite picks_strip. reflexivity.
+  - cbn [strip_ctx c_self c_pn c_before c_after]. apply desc_ctxs_strip.
+  - cbn [map]. f_equal. cbn [strip_ctx c_self c_pn c_before c_after]. apply desc_ctxs_strip.
+  - unfold following_sibling_ctxs. cbn [strip_ctx c_self c_pn c_before c_after].
+    rewrite keep_visible_no_strip. unfold keep_visible. rewrite picks_strip.
+    rewrite strip_list_app, (strip_list_cons_vis _ _ x [] Hv). reflexivity.
+  - unfold preceding_sibling_ctxs. cbn [strip_ctx c_self c_pn c_before c_after].
+    rewrite keep_visible_no_strip. unfold keep_visible. rewrite picks_strip.
+    rewrite (strip_list_cons_vis _ _ x post Hv). reflexivity.
+Qed.
+
+Lemma axis_visible : forall st a c, ctx_visible st c = true ->
+  Forall (fun c' => ctx_visible st c' = true) (axis_ctxs st a c).
+Proof.
+  intros st a c Hv. destruct a; cbn [axis_ctxs].
+  - constructor; [exact Hv|constructor].
+  - unfold child_ctxs. destruct (c_self c); try constructor. apply keep_visible_all.
+  - apply desc_ctxs_visible.
+  - constructor; [exact Hv|apply desc_ctxs_visible].
+  - apply keep_visible_all.
+  - apply keep_visible_all.
+Qed.
+
+(* ------------------------------------------------------------------------------------------------ *)
+(* 8. steps *)
+
+Lemma map_apply_pred {A B} (f : A -> B) (p : ppred) (l : list A) :
+  map f (apply_pred p l) = apply_pred p (map f l).
+Proof.
+  destruct p; simpl.
+  - reflexivity.
+  - destruct k; [reflexivity|]. rewrite nth_error_map'. destruct (nth_error l k); reflexivity.
+  - rewrite <- map_rev. destruct (rev l); reflexivity.
+  - rewrite <- map_rev, nth_error_map'. destruct (nth_error (rev l) k); reflexivity.
+Qed.
+
+Lemma apply_pred_incl {A} (p : ppred) (l : list A) (x : A) : In x (apply_pred p l) -> In x l.
+Proof.
+  destruct p; simpl.
+  - auto.
+  - destruct k; [intros []|]. destruct (nth_error l k) eqn:E; [|intros []].
+    intros [<-|[]]. eapply nth_error_In; eauto.
+  - destruct (rev l) eqn:E; [intros []|]. intros [<-|[]].
+    apply in_rev. rewrite E. left; reflexivity.
+  - destruct (nth_error (rev l) k) eqn:E; [|intros []].
+    intros [<-|[]]. apply in_rev. eapply nth_error_In; eauto.
+Qed.
+
+Lemma step_equiv : forall st s c, ctx_visible st c = true ->
+  map (strip_ctx st) (eval_step st s c) = eval_step no_strip s (strip_ctx st c).
+Proof.
+  intros st s c Hv. unfold eval_step. rewrite map_apply_pred. f_equal.
+  rewrite <- (axis_equiv st _ c Hv). rewrite filter_map_comm. f_equal.
+  apply filter_ext. intros c'. destruct c' as [pn' pre' x' post']. cbn [strip_ctx c_self]. symmetry. apply test_node_rs.
+Qed.
+
+Lemma step_visible : forall st s c, ctx_visible st c = true ->
+  Forall (fun c' => ctx_visible st c' = true) (eval_step st s c).
+Proof.
+  intros st s c Hv. apply Forall_forall. intros x Hx. unfold eval_step in Hx.
+  apply apply_pred_incl in Hx. apply filter_In in Hx. destruct Hx as [Hx _].
+  pose proof (axis_visible st (s_axis s) c Hv) as HA. rewrite Forall_forall in HA. auto.
+Qed.
+
+(* ------------------------------------------------------------------------------------------------ *)
+(* 9. paths *)
+
+Lemma path_equiv : forall st p c, ctx_visible st c = true ->
+  map (strip_ctx st) (eval_path st p c) = eval_path no_strip p (strip_ctx st c).
+Proof.
+  intros st p. induction p as [|s r IH]; intros c Hv; cbn [eval_path]; [reflexivity|].
+  rewrite <- (step_equiv st s c Hv). rewrite map_flat_map, flat_map_map.
+  apply flat_map_ext_Forall. eapply Forall_impl; [|apply step_visible; exact Hv].
+  intros c' Hc'. apply IH. exact Hc'.
+Qed.
+
+Lemma path_visible : forall st p c, ctx_visible st c = true ->
+  Forall (fun c' => ctx_visible st c' = true) (eval_path st p c).
+Proof.
+  intros st p. induction p as [|s r IH]; intros c Hv; cbn [eval_path].
+  - constructor; [exact Hv|constructor].
+  - apply Forall_flat_map_intro. eapply Forall_impl; [|apply step_visible; exact Hv].
+    intros c' Hc'. apply IH. exact Hc'.
+Qed.
+
+(* ------------------------------------------------------------------------------------------------ *)
+(* 10. observations *)
+
+Lemma observe_equiv : forall st c, ctx_visible st c = true ->
+  observe st c = observe no_strip (strip_ctx st c).
+Proof.
+  intros st c Hv. destruct c as [pn pre x post]. unfold ctx_visible in Hv. cbn [c_pn c_self] in Hv.
+  assert (Hs : stripped st pn x = false).
+  { unfold visible in Hv. destruct (stripped st pn x); [discriminate|reflexivity]. }
+  unfold observe. cbn [strip_ctx c_self c_pn c_before c_after].
+  rewrite (rs_string_value st pn x Hs), (rs_copy_events st pn x Hs), rs_children,
+    (rs_desc_or_self_length st pn x Hs), (rs_desc_or_self_texts st pn x Hs).
+  rewrite !filter_visible_no_strip, map_length, strip_list_length.
+  replace (strip_list st pn pre ++ remove_stripped st x :: strip_list st pn post)
+    with (strip_list st pn (pre ++ x :: post))
+    by (rewrite strip_list_app, (strip_list_cons_vis _ _ x post Hv); reflexivity).
+  rewrite strip_list_length. reflexivity.
+Qed.
+
+(* ------------------------------------------------------------------------------------------------ *)
+(* 11. the whole observation language *)
+
+Lemma run_obs_equiv : forall st p d, visible st (0, 0)%N d = true ->
+  run_obs st p d = run_obs no_strip p (remove_stripped st d).
+Proof.
+  intros st p d Hv. unfold run_obs.
+  change (root_ctx (remove_stripped st d)) with (strip_ctx st (root_ctx d)).
+  rewrite <- (path_equiv st p (root_ctx d) Hv). rewrite map_map.
+  apply map_ext_F. eapply Forall_impl; [|apply (path_visible st p (root_ctx d) Hv)].
+  intros c Hc. apply observe_equiv. exact Hc.
+Qed.
+
+Theorem strip_equiv_tree : forall st p n a ks,
+  run_obs st p (Elem n a ks) = run_obs no_strip p (remove_stripped st (Elem n a ks)).
+Proof. intros st p n a ks. apply run_obs_equiv. reflexivity. Qed.
+
+(* ------------------------------------------------------------------------------------------------ *)
+(* 12. the Recommendation's removal (with xml:space) against the code's *)
+
+Lemma rec_remove_without_xml_space : forall st x, no_xml_space_preserve x = true ->
+  rec_remove st false x = remove_stripped st x.
+Proof.
+  intros st. induction x using node_ind'; intros Hx; try reflexivity.
+  cbn [no_xml_space_preserve] in Hx. apply andb_true_iff in Hx. destruct Hx as [Ha Hk].
+  apply negb_true_iff in Ha. cbn [rec_remove remove_stripped]. rewrite Ha.
+  change (fun k : node => false || visible st n k) with (visible st n). f_equal. f_equal.
+  rewrite forallb_forall in Hk. rewrite Forall_forall in H.
+  apply map_ext_in. intros k Hin. apply H; [exact Hin|apply Hk; exact Hin].
+Qed.
+
+Lemma rec_remove_differs :
+  exists x, rec_remove (fun _ => true) false x <> remove_stripped (fun _ => true) x.
+Proof.
+  exists (Elem (0, 0)%N [((xml_ns, space_local), preserve_value)] [Text [32%N]]).
+  vm_compute. intros H. discriminate H.
+Qed.
+
+Print Assumptions strip_equiv_tree.
+Print Assumptions rec_remove_without_xml_space.
+Print Assumptions rec_remove_differs.
+Print Assumptions rs_idempotent.
